@@ -34,12 +34,15 @@ BOUNDS = {
                              "slow exhaustion (input generator sleeps 0.5 s before StopIteration)",
                              "slow first item with results_queue_maxsize=1 (flow control)",
                              "slow factory with quota 1"],
+        "container_valued_elements": "input elements that are themselves lists / tuples (one of them empty): |data| in {1, 2, 4} x chunk 1..2 x "
+                                     "{imap, imap_unordered} x {FunctorPool, FactoryFunctorPool quota 2} (48)",
         "random": "12 random configurations with |data| 6..12",
     },
     "thorough": {
         "configs": "full product |data| 0..5 x chunk 1..3 x workers 1..2 x wq {None,1,1.0} x rq {None,1} x "
                    "ordered x lazy x pool kind (1728)",
         "forced_schedules": "as quick, with delays 0.1 / 0.3 / 0.8 s",
+        "container_valued_elements": "|data| 0..5 x chunk 1..3 x ordered x pool kind x {list, tuple} elements (144)",
         "random": "150 random configurations with |data| 6..40, workers 1..4, chunk 1..7",
     },
 }
@@ -103,6 +106,11 @@ def cases(tier, seed):
         yield {"kind": "slow-factory-quota-1",
                "cfg": dict(_cfg("factory", 1, 1.0, None, 1), factory_delay=d + 0.2, factory_slow_from=2),
                "calls": [{"ordered": True, "n": 3, "cs": 1}]}
+    # container-valued input elements (an element may itself be a list / tuple, also an empty one): the chunk structure must not leak
+    for elem, n, cs, ordered, pool in itertools.product(("list", "tuple"), (1, 2, 4) if quick else range(0, 6), (1, 2) if quick else (1, 2, 3),
+                                                        (True, False), ("functor", "factory")):
+        yield {"kind": "container-valued-elements", "cfg": _cfg(pool, 2, 1.0, None, 2 if pool == "factory" else None),
+               "calls": [{"ordered": ordered, "n": n, "cs": cs, "elem": elem}]}
     rng = random.Random(seed)
     for _ in range(12 if quick else 150):
         pool = rng.choice(["functor", "factory"])
